@@ -214,6 +214,8 @@ def oracle(obs):
             bad.append((name, 'converted != flat JSON at %s: %s vs %s' % tuple(st['diff'])))
         elif st.get('layout_equal') is False:
             bad.append((name + '_layout', 'nested text and nested JSON lay the nodes out differently: %s' % st.get('layout_diff')))
+    for stage, why in (obs.get('owners') or {}).get('problems', []):
+        bad.append((stage, why))
     if 'enc_same' in obs and not obs['enc_same'] and not bad:
         bad.append(('encode', 'encodings differ: %s' % {k: (v[:60] if isinstance(v, str) else v) for k, v in obs['enc'].items()}))
     return bad
